@@ -8,7 +8,7 @@
    holds for every junk.  `sort`, `find`, `adler_*` stand for libc qsort / bsearch and zlib adler32.
    This file contains only statements, `exact` proofs and Print Assumptions. *)
 From Coq Require Import ZArith List Bool Permutation.
-From ScV Require Import Base.CInt Gen.Array C18.MacroProofs C08.ArrayModel C08.ArrayLists C08.ArrayGen C08.ArrayRefine C08.ArrayStep C08.ArrayTop C08.ArrayAlgo C08.ArrayFull Gen.ArrayPermC08 C08.ArrayPermGen Gen.ArrayDebugC08 C08.ArrayDebugGen.
+From ScV Require Import Base.CInt Gen.Array C18.MacroProofs C08.ArrayModel C08.ArrayLists C08.ArrayGen C08.ArrayRefine C08.ArrayStep C08.ArrayTop C08.ArrayAlgo C08.ArrayFull Gen.ArrayPermC08 C08.ArrayPermGen Gen.ArrayDebugC08 C08.ArrayDebugGen C08.ArrayPolicy.
 Import ListNotations.
 Local Open Scope Z_scope.
 
@@ -317,3 +317,36 @@ Example C08_legal_example :
      OSet 1 0 [9;9;9]; OInitCount true 2 3 1 [0;0;0]; OCopy 2 1; OSort 0; OUniq 2; ODestroy 1; OPop 0; OResize 2 9 (repeat 7 21);
      OResize 0 1 []; OIndex 0 0; ODestroy 2; ODrop 0] = true.
 Proof. vm_compute. reflexivity. Qed.
+
+(* ===== allocation policy of the generated sc_array_resize over HISTORIES of resize calls (C08/ArrayPolicy.v) ====== *)
+
+(* after a resize of an owner to n > 0 elements, from any capacity: count n, capacity covers the elements, stays
+   within the size bound and is below twice the need *)
+Theorem C08_policy_resize_bounds : forall e c b n, 0 < e -> 0 < n -> n * e <= MAXB -> 0 <= b <= MAXB ->
+  let st := pol_step e (c, b) n in
+  fst st = n /\ n * e <= snd st <= MAXB /\ snd st < 2 * (n * e).
+Proof. exact resize_bounds. Qed.
+Print Assumptions C08_policy_resize_bounds.
+
+(* a second resize to the same count takes no action (no reallocation, capacity unchanged) *)
+Theorem C08_policy_resize_stable : forall e c b n, 0 < e -> 0 < n -> n * e <= MAXB -> 0 <= b <= MAXB ->
+  let st := pol_step e (c, b) n in
+  sc_array_resize e (fst st) (snd st) n = (n, snd st, 0, 0).
+Proof. exact resize_stable. Qed.
+Print Assumptions C08_policy_resize_stable.
+
+(* EVERY history of resize calls (any counts >= 0 within the size bound, growing and shrinking across every
+   power-of-two boundary), from any owner state: the capacity stays within the bound, and after a last resize to
+   n > 0 it covers n elements and is below twice the need *)
+Theorem C08_policy_history_range : forall e ns, 0 < e -> Forall (fun n => 0 <= n /\ n * e <= MAXB) ns ->
+  forall c b, 0 <= b <= MAXB -> 0 <= snd (fold_left (pol_step e) ns (c, b)) <= MAXB.
+Proof. exact resize_history_range. Qed.
+Print Assumptions C08_policy_history_range.
+
+Theorem C08_policy_history_last : forall e ns n, 0 < e -> Forall (fun n => 0 <= n /\ n * e <= MAXB) ns ->
+  0 < n -> n * e <= MAXB ->
+  forall c b, 0 <= b <= MAXB ->
+  let st := fold_left (pol_step e) (ns ++ [n]) (c, b) in
+  fst st = n /\ n * e <= snd st <= MAXB /\ snd st < 2 * (n * e).
+Proof. exact resize_history_last. Qed.
+Print Assumptions C08_policy_history_last.
